@@ -156,6 +156,78 @@ def clone_layer(quick_s=15, thorough_s=300):
     return run
 
 
+def render_layer(quick_s=15, thorough_s=300):
+    """C15 bounded layer (runtime/render_check.py): every declaration style of random abstract machines, compared."""
+    import json as _json
+
+    def run(tier, seed, run_native):
+        limit = thorough_s if tier == "thorough" else quick_s
+        rc, out, err = run_native(["-m", "runtime.render_check", str(limit), str(seed)], timeout=limit * 2 + 120)
+        try:
+            res = _json.loads(out.strip().splitlines()[-1])
+        except Exception:
+            return {"what": "C15 rendering layer", "error": (err or out)[-400:], "violations": []}
+        r = {"what": "C15 rendering layer: random abstract machines (2-4 states in shuffled declaration order, 1-3 events, guards, transitions shared "
+                     "by two events, an optional any-group) written as class-body source in 13 declaration styles, executed on the real library "
+                     "and compared on states, events, allowed events per step, outcomes and convention-callback traces over random event "
+                     "sequences and guard verdicts (bounded, not a proof)",
+             "bound": f"time budget {limit}s, seed {seed}; 5 sequences of <= 6 events per machine; styles: " + ", ".join(res.get("styles", [])),
+             "evaluations": res.get("cases"), "distinct": res.get("cases"), "seconds": res.get("seconds"), "violations": []}
+        if res.get("violation"):
+            r["violations"].append({"name": "bounded:C15:two-declaration-styles-give-different-machines", "replay": res.get("replay"),
+                                    "difference": res["violation"]})
+        return r
+    return run
+
+
+def diagram_layer(quick_s=8, thorough_s=200):
+    """C18 bounded layer (runtime/diagram_check.py): the real pydot graph of random machines vs what the property requires."""
+    import json as _json
+
+    def run(tier, seed, run_native):
+        limit = thorough_s if tier == "thorough" else quick_s
+        rc, out, err = run_native(["-m", "runtime.diagram_check", str(limit), str(seed)], timeout=limit * 2 + 120)
+        try:
+            res = _json.loads(out.strip().splitlines()[-1])
+        except Exception:
+            return {"what": "C18 diagram layer", "error": (err or out)[-400:], "violations": []}
+        r = {"what": "C18 diagram layer: the pydot graph of the real DotGraphMachine for random machines (2-4 states, str/int/falsy values, several "
+                     "transitions between the same states, multi-event transitions, cond/unless guards, internal transitions), for the class and "
+                     "for an instance after every step of a random walk: nodes, initial edge, one edge per external transition with events and "
+                     "guards, peripheries of final states, exactly the current state highlighted (bounded, not a proof)",
+             "bound": f"time budget {limit}s, seed {seed}; walks <= 5 events", "evaluations": res.get("cases"), "distinct": res.get("cases"),
+             "seconds": res.get("seconds"), "violations": []}
+        if res.get("violation"):
+            r["violations"].append({"name": "bounded:C18:diagram-differs-from-the-machine", "replay": res.get("replay"), "difference": res["violation"]})
+        return r
+    return run
+
+
+def definition_layer(quick_s=10, thorough_s=420):
+    """C09 bounded layer (runtime/definition_check.py): the class statement's verdict on small graphs vs plain graph search."""
+    import json as _json
+
+    def run(tier, seed, run_native):
+        limit = thorough_s if tier == "thorough" else quick_s
+        extra = ["exhaustive"] if tier == "thorough" else []
+        rc, out, err = run_native(["-m", "runtime.definition_check", str(limit), str(seed)] + extra, timeout=limit * 2 + 120)
+        try:
+            res = _json.loads(out.strip().splitlines()[-1])
+        except Exception:
+            return {"what": "C09 definition layer", "error": (err or out)[-400:], "violations": []}
+        r = {"what": "C09 definition layer: directed graphs over 1..5 states, any initial/final flags, transition multisets with self loops, internal "
+                     "transitions, parallel edges and from_.any(), strict_states on/off: verdict of the real class statement (accepted / "
+                     "InvalidDefinition / warning) vs an independent reading of the property by plain graph search (bounded, not a proof)",
+             "bound": f"time budget {limit}s, seed {seed}; thorough tier first enumerates ALL graphs with <= 3 states and <= 3 transitions "
+                      f"(complete: {res.get('exhaustive_up_to_3_states_3_transitions')}), then random graphs up to 5 states and 10 transitions",
+             "evaluations": res.get("cases"), "distinct": res.get("cases"), "seconds": res.get("seconds"), "violations": []}
+        if res.get("violation"):
+            r["violations"].append({"name": "bounded:C09:class-statement-verdict-differs-from-the-property", "replay": res.get("replay"),
+                                    "difference": res["violation"]})
+        return r
+    return run
+
+
 def api_layer(pid, quick_s=6, thorough_s=90):
     """Bounded API-level stand-in (runtime/api_checks.py): random small cases on the real library vs a
     reference computed from the property statement.  Never counted as proved."""
@@ -196,6 +268,25 @@ def witnesses(pid, names):
     return run
 
 
+def probes(pid, names):
+    """Probes (/verif/probes): small concrete uses of the real library that must behave as the property says (exit 0);
+    a bounded part like the layers above, for corners the contracts do not reach.  Exit 1 = violated, replayable as is."""
+    import os
+
+    def run(tier, seed, run_native):
+        r = {"what": f"{pid} probes: concrete uses of the real library for corners outside the contracts (bounded, not a proof)",
+             "bound": ", ".join(names), "evaluations": len(names), "distinct": len(names), "violations": []}
+        for nm in names:
+            rc, out, err = run_native([os.path.join("probes", nm + ".py")], timeout=180)
+            if rc == 1:
+                r["violations"].append({"name": f"bounded:{pid}:probe:{nm}", "replay": os.path.join("/verif/probes", nm + ".py"),
+                                        "difference": out.strip()[-300:]})
+            elif rc != 0:
+                r["violations"].append({"name": f"probe-crashed:{nm}", "replay": None, "difference": (err or out)[-300:]})
+        return r
+    return run
+
+
 def _scans_engine():
     from . import scans
     return scans.scan_state_field_writers() + scans.scan_queue_mutators() + scans.scan_lock_operations()
@@ -210,8 +301,9 @@ PROPERTIES = {
     "C05": {"assumptions": [
         "asyncio.gather / as_completed / run_async_from_sync: assumed contracts (pyvc/models.py); the order of effects inside one callback group is left unconstrained, as documented",
         "relational reading: sync and async functions are verified against the SAME contract classes"],
-        "bounded": [scenario_layer("C05")], "search": scenario_search("C05")},
-    "C10": {"scans": [_scans_engine], "bounded": [scenario_layer("C10")], "search": scenario_search("C10")},
+        "bounded": [scenario_layer("C05"), probes("C05", ["C05_sync_driver_keeps_one_loop"])], "search": scenario_search("C05")},
+    "C10": {"scans": [_scans_engine], "bounded": [scenario_layer("C10"), probes("C10", ["C10_every_transition_stores_the_target_value"])],
+            "search": scenario_search("C10")},
     "C11": {"bounded": [scenario_layer("C11")], "search": scenario_search("C11")},
     "C13": {"bounded": [api_layer("C13")], "assumptions": [
         "TransitionList.unique_events, StateMachine.events / allowed_events and bind_events_to are NOT under contract (the "
@@ -224,7 +316,7 @@ PROPERTIES = {
                             "add_listener are not under contract yet: the bounded API layer stands in; the registry/executor/wrapper "
                             "chain they feed is proved (C01, C02)",
                             "dir()/getattr()/callable() on provider objects as documented (reflective primitives, ATTR_OF / CALLABLE oracles)"]},
-    "C15": {"bounded": [api_layer("C15"), witnesses("C15", ["C15_any_skips_later_states"])],
+    "C15": {"bounded": [api_layer("C15"), render_layer(), witnesses("C15", ["C15_any_skips_later_states"])],
             "assumptions": ["builders (to / from_ / itself / any, |, add_transitions, Events.add, factory.add_*, States.from_enum) are not under "
                             "contract yet: the bounded API layer (all renderings of random small abstract machines) stands in"]},
     "C16": {"bounded": [api_layer("C16"), sig_layer("C16", quick_s=4, thorough_s=60), witnesses("C16", ["C16_subclass_changes_base", "C07_signature_cache_key"])],
@@ -245,7 +337,7 @@ PROPERTIES = {
         "copy.deepcopy / pickle protocol: the dict returned by __getstate__ is deep-copied and __setstate__ runs on a blank instance (so original and clone share no mutable state)",
         "_register_callbacks / add_listener / _get_engine / async_or_sync / engine.start enter through abstract contracts read off their bodies (what they do to has_async_callbacks, the listeners and the pending activation)",
         "behavioural equality after the round trip follows from equal views (same class, stored value, options, listeners, engine kind, pending activation) by the engine contracts of C01-C04"]},
-    "C18": {"assumptions": [
+    "C18": {"bounded": [diagram_layer()], "assumptions": [
         "pydot: Node/Edge store what they are given, add_node/add_edge append (ghost origin/count fields)",
         "machine is an instance; _get_graph, _state_actions and label strings are styling only (assumed)",
         "WF(cls): states pairwise distinct, a transition object sits at one position of one state's list"]},
@@ -255,7 +347,7 @@ PROPERTIES = {
                 "atomicity model: asyncio = blocks between awaits are atomic (AST scans check the premises on the real async processing_loop and Event.__call__); threads = each deque/Lock method call is atomic under the GIL",
                 "the outline is per role, so it is unbounded in the number of senders and events; it is a proof about this model, not about CPython's scheduler",
                 "fair completion of senders; no failures (with a failure C04's 'queue dropped' takes precedence)"]},
-    "C09": {"assumptions": [
+    "C09": {"bounded": [definition_layer()], "assumptions": [
         "REACH is the least relation closed under 'start' and 'transition target': the induction principle is applied once, to the set yielded by visit_connected_states (Visit.derived); closedness of that set is a discharged postcondition",
         "State objects are compared by identity in sets/dicts (State.__hash__/__eq__ consistent, (name,id) pairs distinct)",
         "cls.states / cls.final_states / cls.initial_state as set up by StateMachineMetaclass.__init__ (class_wf)"]},
